@@ -77,6 +77,35 @@ inductive Family where
   | none
   deriving DecidableEq, Repr
 
+/-- `types.BasicKind` of the underlying type of a trait column, as far as `extractUnderlying`
+(`traits.go`) distinguishes kinds -/
+inductive BasicKind where
+  | untypedInt
+  | int (bits : Nat)
+  | uint (bits : Nat)
+  | untypedRune
+  | untypedString
+  | string
+  | bool
+  | other
+  deriving DecidableEq, Repr
+
+/-- `TraitDesc.extractUnderlying`. An untyped rune constant has default type `rune` = `int32` and
+is in the int64 family (current tree); the pinned switch did not list `types.UntypedRune`
+(`legacyRune`). Untyped strings are deliberately not in the switch (they need no cast), bool has
+no family; float kinds are not modelled (`other`). -/
+def extractUnderlyingQ (legacyRune : Bool) : BasicKind → Family
+  | .untypedInt => .sint 64
+  | .int b => .sint b
+  | .uint b => .uint b
+  | .untypedRune => if legacyRune then .none else .sint 32
+  | .untypedString => .ustr
+  | .string => .nstr
+  | .bool => .none
+  | .other => .none
+
+def extractUnderlying : BasicKind → Family := extractUnderlyingQ false
+
 /-- a trait column as declared on the line of the lowest value: trait name (leading `_`
 trimmed), dynamic type of its constants, family -/
 structure TraitCol where
@@ -553,12 +582,28 @@ def firstSome {α : Type} : List (Option α) → Option α
   | some a :: _ => some a
   | none :: r => firstSome r
 
+/-- signedness of an integer family (`GetParsableUnderlyingInt64…` / `…Uint64…`) -/
+def Family.isNumeric (fam : Family) (signed : Bool) : Bool :=
+  match fam with
+  | .sint _ => signed
+  | .uint _ => !signed
+  | _ => false
+
+/-- width of the trait type a numeric fallback converts to -/
+def Family.bitsOf (fam : Family) : Nat :=
+  match fam with
+  | .sint b => b
+  | .uint b => b
+  | _ => 64
+
+/-- the parsable traits one numeric fallback block ranges over -/
+def GenFull.numericTraits (g : GenFull) (signed : Bool) : List TraitDesc :=
+  g.traits.filter (fun t => t.parsable && t.fam.isNumeric signed)
+
 /-- the numeric fallback of one family: `if v := T(x); int64(v) == x { Parse(v) }` per trait -/
 def numericTry (q : Quirks) (g : GenFull) (signed : Bool) (x : Int) : Option Int :=
-  firstSome ((g.traits.filter (fun t => t.parsable && (match t.fam with
-      | .sint _ => signed | .uint _ => !signed | _ => false))).map (fun t =>
-    let bits := match t.fam with | .sint b => b | .uint b => b | _ => 64
-    let v := wrapTo signed bits x
+  firstSome ((g.numericTraits signed).map (fun t =>
+    let v := wrapTo signed t.fam.bitsOf x
     if q.noRangeGuard || v == x then g.base.parse ⟨t.ty, .int v⟩ else none))
 
 /-- the string fallbacks: `Parse(s)`, then `Parse(T(s))` for every parsable string-kinded trait -/
@@ -586,8 +631,8 @@ def GenFull.unmarshalYAML (q : Quirks) (g : GenFull) (text : String) : Option In
   match stringTry g text with
   | some v => some v
   | none =>
-    let hasU := g.traits.any (fun t => t.parsable && (match t.fam with | .uint _ => true | _ => false))
-    let hasS := g.traits.any (fun t => t.parsable && (match t.fam with | .sint _ => true | _ => false))
+    let hasU := !(g.numericTraits false).isEmpty   -- the block exists only if the family is non-empty
+    let hasS := !(g.numericTraits true).isEmpty
     let u :=
       if !hasU then none
       else match parseUintLit text, q.yamlGuardInverted with
@@ -607,6 +652,16 @@ def GenFull.unmarshalYAML (q : Quirks) (g : GenFull) (text : String) : Option In
 def GenFull.marshal (g : GenFull) (e : Int) : String := g.base.string e
 
 /-! ## specification for C05 / C12 -/
+
+/-- the documented trait shape: the line of the lowest value (its alphabetically first name)
+declares every trait column of the type -/
+def FirstLineDeclares (f : FileDef) (t : TypeDecl) : Prop :=
+  ∀ c ∈ f.consts, c.ty = t.name →
+    (∀ c' ∈ f.consts, c'.ty = t.name → c.val < c'.val ∨ (c.val = c'.val ∧ c.name ≤ c'.name)) →
+    c.tvals.length = t.cols.length
+
+instance (f : FileDef) (t : TypeDecl) : Decidable (FirstLineDeclares f t) := by
+  unfold FirstLineDeclares; exact inferInstance
 
 /-- the trait constant written on the PRIMARY definition line of value `e`, column `j` -/
 def DeclaredTrait (f : FileDef) (t : TypeDecl) (j : Nat) (e : Int) (d : Dyn) : Prop :=
